@@ -29,7 +29,7 @@ ASSUMPTIONS = ["nvmon.ref exact reference for vertex positions (uv within 1e-12 
 FLOORS = {'quick': {'topology': 150, 'vertex-on-surface': 1500, 'quads': 100, 'trim-cells': 1000, 'obj': 60, 'off': 60, 'stl-ascii': 60,
                     'stl-binary': 60, 'container': 30},
           'thorough': {'topology': 1500, 'vertex-on-surface': 15000, 'trim-cells': 10000}}
-MANDATORY_TAGS = ['spacing1', 'spacing>=2', 'spacing>=3', 'rational', 'trim:freeform', 'trim:spline', 'trim:reversed', 'trim:clockwise', 'trim:non-unit-domain', 'container',
+MANDATORY_TAGS = ['spacing1', 'spacing>=2', 'spacing>=3', 'rational', 'trim:freeform', 'trim:spline', 'trim:reversed', 'trim:clockwise', 'trim:non-unit-domain', 'trim:added-after-tessellation', 'container', 'container:tessellator-replaced',
                   'quad', 'non-unit-domain', 'export:file']
 TECHNIQUE = ("runtime monitoring: structural + exact-geometric oracle over every tessellation the workload produces (ids, indices, "
              "orientation, exact area cover, edge incidence, Euler characteristic, vertex = surface(uv)), cell-classification oracle "
@@ -446,8 +446,17 @@ def check_trim(case, ctx):
         trim.opt = ['reversed', 1]
     o.sample_size = n
     o.tessellator = tessellate.TrimTessellate()
-    o.trims = [trim]
-    o.tessellate()
+    how = rng.choice(['trims-first', 'trims-first', 'tessellated-then-trims', 'tessellated-then-add_trim'])
+    if how != 'trims-first':
+        # the surface already holds an (untrimmed) tessellation when the trim curve arrives
+        o.vertices
+        ctx.tag('trim:added-after-tessellation')
+    if how == 'tessellated-then-add_trim':
+        o.add_trim(trim)
+    else:
+        o.trims = [trim]
+    if how == 'trims-first':
+        o.tessellate()
     V, Fc = o.vertices, o.faces
     tp = [list(p) for p in trim.evalpts]
     ids = [v.id for v in V]
@@ -512,6 +521,34 @@ def check_container(case, ctx):
                   what='container')
     ok2 = all(len(f.data) == 3 and all(0 <= i < len(V) for i in f.data) for f in Fc)
     ctx.check(ok2, 'container/face-index', 'container faces reference missing vertices', what='container')
+    # the container's sample size is the number of samples per direction of every surface in it (what its own exports use as well)
+    ctx.check(len(V) == len(els) * n * n and len(Fc) == len(els) * 2 * (n - 1) * (n - 1), 'container/sample-size',
+              'container of %d surfaces with sample_size = %d: %d vertices / %d faces, documented %d / %d' %
+              (len(els), n, len(V), len(Fc), len(els) * n * n, len(els) * 2 * (n - 1) * (n - 1)), what='container')
+    if rng.random() < 0.5 and n >= 6:
+        # replacing the tessellator of a container whose mesh has been read: the new tessellator's mesh must be reported
+        from geomdl import tessellate, freeform
+
+        def trimmed_container(set_first):
+            es = [G.build(sd) for sd in case['shapes']]
+            for e_ in es:
+                (ua, ub), (va, vb) = G.domains_of(e_)
+                tr = freeform.Freeform()
+                tr.evaluate(points=[[ua + x * (ub - ua), va + y * (vb - va)] for x, y in
+                                    ((0.27, 0.27), (0.73, 0.27), (0.73, 0.73), (0.27, 0.73), (0.27, 0.27))])
+                e_.trims = [tr]
+            c_ = multi.SurfaceContainer(*es)
+            c_.sample_size = n
+            if set_first:
+                c_.tessellator = tessellate.TrimTessellate()
+            return c_
+        live, fresh_ = trimmed_container(False), trimmed_container(True)
+        nf0 = len(live.faces)                      # default tessellator: trims ignored
+        live.tessellator = tessellate.TrimTessellate()
+        ctx.tag('container:tessellator-replaced')
+        ctx.check(len(live.faces) == len(fresh_.faces) and len(live.vertices) == len(fresh_.vertices), 'container/stale-after-tessellator-change',
+                  'container mesh read, tessellator replaced by TrimTessellate, mesh read again: %d faces (before: %d), a container given the '
+                  'tessellator first reports %d' % (len(live.faces), nf0, len(fresh_.faces)), what='container')
     if ok and ok2:
         # every face stays within the vertex block of one surface, and every vertex lies on its surface
         off = 0
